@@ -105,6 +105,8 @@ def enc_x(v):
         return {'t': 'Fraction', 'v': '%d/%d' % (v.numerator, v.denominator)}
     if type(v) is Decimal:
         return {'t': 'Decimal', 'v': str(v)}
+    if type(v) is tuple:          # one operand per row: (7, 9, 10) / col
+        return {'t': 'seq', 'v': [enc_x(e) for e in v]}
     return pyobs.enc(v)
 
 
@@ -113,7 +115,19 @@ def dec_x(d):
         return Fraction(d['v'])
     if d['t'] == 'Decimal':
         return Decimal(d['v'])
+    if d['t'] == 'seq':
+        return tuple(dec_x(e) for e in d['v'])
     return pyobs.dec(d)
+
+
+def _numeric_text(t):
+    for f in (int, float):
+        try:
+            f(t)
+            return True
+        except ValueError:
+            pass
+    return False
 
 
 def plain(x):
@@ -361,7 +375,9 @@ FUNCS = {
 EXOTIC = ['npabs', 'npint64', 'npint32', 'npfloat64', 'npfloat32', 'npround', 'frac3', 'frac', 'dec', 'pos', 'even']
 PLAINF = ['neg', 'half', 'sq', 'tofloat', 'ident', 'none_neg', 'str', 'fmt2', 'strint']
 TEXTF = ['str', 'fmt2', 'strint']
-ARITH = {'+': lambda a, b: a + b, '-': lambda a, b: a - b, '*': lambda a, b: a * b, '/': lambda a, b: a / b}
+ARITH = {'+': lambda a, b: a + b, '-': lambda a, b: a - b, '*': lambda a, b: a * b, '/': lambda a, b: a / b,
+         '//': lambda a, b: a // b, '%': lambda a, b: a % b, '**': lambda a, b: a ** b}
+INT64_MIN, INT64_MAX = -2 ** 63, 2 ** 63 - 1
 
 
 # A finding about the UNCHANGED tree, kept out of the default stream until the coordinator decides: a MixedColumn holding
@@ -369,6 +385,17 @@ ARITH = {'+': lambda a, b: a + b, '-': lambda a, b: a - b, '*': lambda a, b: a *
 # decimal.InvalidOperation, because sorted() compares a Decimal with the NaN and py3compat.safe_sorted only falls back
 # on TypeError.  (mean / median / std / min / max / sum are right on such a column.)
 INCLUDE_PENDING_FINDINGS = False
+# A second one (same switch): IntColumn.sum is np.nansum over the int64 buffer, which adds in int64 and wraps silently:
+# an IntColumn whose cells each fit int64 but whose exact total does not (e.g. [2**62] * 3) returns sum = -4.6e18 where a
+# FloatColumn / MixedColumn holding the same numbers return 1.38e19.  (mean / median / std / min / max of such a column
+# are right: nanmean / nanstd / nanmedian accumulate in float64.)  The cells are inside int64, the total is not: the
+# `sum` of such a reading is left unjudged (tag `int-sum-leaves-int64`), every other statistic of it is judged.
+
+
+def int_sum_wraps(kind, cells):
+    """an IntColumn whose exact total is not an int64 value: np.nansum wrapped around there (repaired in /repo, commit
+    a982cb9: integer buffers are summed exactly), so the sum of such a column is judged like every other statistic"""
+    return False
 
 
 def pending_finding_state(col):
@@ -420,6 +447,12 @@ class Runner:
         if kind != 'KMixed':
             cells = [plain(x) for x in cells]
             u = [plain(x) for x in u]
+        if kind == 'KInt':
+            # the buffer the NumPy statistics reduce (the cells above were read through int(_seq[i])): Model/StatsOp.v
+            try:
+                obs['_buf'] = [Fraction(int(v)) if isinstance(v, np.integer) else Fraction(float(v)) for v in col._seq]
+            except (ValueError, OverflowError, TypeError):
+                obs['_buf'] = None
         if record:
             self.readings.append((kind, cells, obs, u, cnt))
 
@@ -439,6 +472,29 @@ class Runner:
             x = dec_x(op[3])
             c = self.rcol()
             self.free = ARITH[op[1]](c, x) if op[2] == 'l' else ARITH[op[1]](x, c)
+        elif o == 'fiop':                 # c = <the free column / dm.c>; c += x : the augmented assignment on a detached name
+            x = dec_x(op[2])
+            c = self.rcol()
+            if op[1] == '+':
+                c += x
+            elif op[1] == '-':
+                c -= x
+            elif op[1] == '*':
+                c *= x
+            elif op[1] == '/':
+                c /= x
+            elif op[1] == '//':
+                c //= x
+            elif op[1] == '%':
+                c %= x
+            else:
+                c **= x
+            self.free = c
+        elif o == 'insert':               # dm.c = <the free column> : only now the result is copied / type-checked into the table
+            if self.free is not None:
+                c = self.free
+                self.free = None
+                self.put(c)
         elif o == 'arith':                # dm.c = dm.c + x / x + dm.c
             x = dec_x(op[3])
             c = self.wcol()
@@ -581,7 +637,15 @@ class C12:
             'and constant lists whose standard deviation is an exactly representable rational; large offset / small '
             'spread data (1e6..1e12 + 0..100, 1e8+{0,1,2,3}, ms timestamps ~1.7e12, values near -2^40, mixed '
             'magnitudes) in all three column types with cross-type agreement; a stream with '
-            'infinities (outside the quantifier: only unique/count are judged). '
+            'infinities (outside the quantifier: only unique/count are judged); DETACHED results of operators -- col OP x and '
+            'the REFLECTED x OP col for + - * / // % **, x an int, a float or one number per row, chained (1 + 30 / col) and '
+            'augmented (c OP= x) -- on all three column types, whose statistics are read from the result object itself '
+            'before it is assigned anywhere, judged against the cells AS READ from that object and against fresh columns '
+            'of every type (also the same one) holding those cells, then written to / inserted into the table and read '
+            'again; int cells near the int64 / 2^53 limits (2^62 several times, 2^63-1, -2^63, 2^53+1 repeated, mixed '
+            'signs cancelling, 2^31/2^32, sqrt(2^63)) whose total, partial sums or sum of squares leave int64 / binary64 '
+            'exactness, in all three column types with cross-type agreement (the `sum` of an IntColumn whose exact total '
+            'is not an int64 value is left unjudged: pending finding). '
             'Columns are built by PROGRAMS executed on the implementation: plain assignment; `dm.c = dm.c @ f`, map_ '
             'and FREE columns (`col @ f`, `col + x` with NumPy / Fraction / bool operands, column slices and selections, never '
             'inserted: since the repair of DataMatrix._set_col only these keep unchecked cells), further mapped, sliced, '
@@ -600,7 +664,8 @@ class C12:
         'Coq 8.16.1 kernel (coqc; vm_compute for evaluating cases; no native_compute); stdlib QArith/Qcanon',
         'translator /verif/translate (py2coq.py, pystmt.py, gen_stats.py, gen_checktype.py): BaseColumn._numbers, '
         '_nanorinf, mean/median/std/max/min/sum guards, index, weights and denominators, NumericColumn guards and ddof '
-        '-> Gen/KStats.v, Gen/KCheck.v; the remaining statement skeletons are pinned verbatim',
+        '-> Gen/KStats.v, Gen/KCheck.v; the remaining statement skeletons are pinned verbatim (incl. the cast of an '
+        'IntColumn operator result to the column dtype and the cell read `dtype(_seq[key])`)',
         'hand-written models of Python sum/sorted/max/min/list indexing on rationals (Base/QcPy.v) and of float() '
         '(Base/PyVal.v round53); NumPy nanmean/nanmedian/nanstd/nanmax/nanmin/nansum/unique modelled as '
         '"drop NaN, then the textbook function" (NumPy trusted), math.sqrt as the non-negative root',
@@ -635,8 +700,17 @@ class C12:
         '(BaseColumn._nanorinf drops +inf but not -inf; NumPy keeps both): only unique/count are judged there',
         'sum of a column without numbers is left open by the property text (MixedColumn: NaN, non-empty numeric '
         'column: 0.0, empty numeric column: NaN): the oracle accepts NaN or 0, the L1 model pins each',
-        'ints in an IntColumn stay far from int64 overflow; magnitudes within 1e-100..1e100 so that no float '
-        'operation overflows or underflows',
+        'every cell of an IntColumn is an int64 value (the whole range is generated); the `sum` of an IntColumn whose '
+        'exact total is not an int64 value is NOT judged (np.nansum adds in int64 and wraps: reported as a pending '
+        'finding, INCLUDE_PENDING_FINDINGS) -- mean / median / std / min / max of such a column are; arithmetic steps '
+        'are only applied to cells below 2^40; magnitudes within 1e-100..1e100 so that no float operation overflows '
+        'or underflows',
+        'the NumPy statistics reduce the buffer `_seq` while cells are read through `dtype(_seq[i])`: that an '
+        'IntColumn buffer holds integers after an operator is PINNED (gen_stats.py: IntColumn._operate casts the result '
+        'to its dtype, NumericColumn._getintkey), modelled (Model/StatsOp.v: with the cast the statistics of the result '
+        'object are those of its cells, for any buffer the operator produced; astype(int) = truncation toward zero), '
+        'checked on the buffer `_seq` dumped at every IntColumn reading (RC12.v int_buffers_ok) and exercised by the '
+        'detached-operator-result family',
         'a MixedColumn sees ints through float(): the refinement and kind-agreement theorems carry the premise '
         '|z| < 2^53 for int cells; NaN entries of MixedColumn.unique are not modelled (set() compares NaN objects '
         'by identity), as the property speaks about non-NaN values',
@@ -652,7 +726,11 @@ class C12:
         pyfail, verdict = [], []
         o_items, m_items = [], []
         n_exact = n_ulp = 0
+        # IntColumn.sum adds in int64 and wraps: pending finding, see INCLUDE_PENDING_FINDINGS (every other statistic is judged)
+        skip = {'Sum'} if (int_sum_wraps(kind, cells) and not INCLUDE_PENDING_FINDINGS) else set()
         for s in STATS:
+            if s in skip:
+                continue
             x = obs[s]
             r0 = textbook(s, l0)
             r1 = textbook(s, l1)
@@ -687,8 +765,12 @@ class C12:
         if cross and scope:
             # the same numbers in the other column types: the implementations must agree with each other as well
             numsonly = [c for c in cells if is_num(c)]
-            plainable = all(type(c) in (int, float, str) or c is None for c in cells)
-            others = [k for k in KINDS if k != kind and (k != 'KInt' or all(type(c) is int for c in numsonly))]
+            # (text that parses as a number -- '' + 0.5 gives the text '0.5' -- would be CONVERTED by the fresh column's type check)
+            plainable = all(type(c) in (int, float) or c is None or (type(c) is str and not _numeric_text(c)) for c in cells)
+            # cross == 'all': also a FRESH column of the same type holding the cells as read (the reading comes from a
+            # derived object, e.g. the detached result of an operator)
+            others = [k for k in KINDS if (k != kind or cross == 'all') and
+                      (k != 'KInt' or all(type(c) is int and INT64_MIN <= c <= INT64_MAX for c in numsonly))]
             for k2 in others if plainable else []:
                 try:
                     rd = run_program(k2, numsonly if k2 == 'KInt' else list(cells), [])
@@ -697,7 +779,10 @@ class C12:
                     pyfail.append('%s holding the same cells raised %r' % (k2, e))
                     continue
                 l2 = nums_l0(cells2)
+                skip2 = {'Sum'} if (int_sum_wraps(k2, cells2) and not INCLUDE_PENDING_FINDINGS) else set()
                 for s in STATS:
+                    if s in skip or s in skip2:
+                        continue
                     a, b = obs[s], obs2[s]
                     r0 = textbook(s, l0)
                     if r0 is None or not l0 or math.isnan(a) or math.isnan(b) or math.isinf(a) or math.isinf(b):
@@ -712,7 +797,7 @@ class C12:
         reading = '(%s, %s, %s, %s)' % (cl, L.lst(o_items), ul, L.z(cnt))
         mreading = '(%s, (%s, %s, %s, %s))' % (kind, cl, L.lst(m_items), ul, L.z(cnt))
         return {'oracle': reading, 'model': mreading, 'pyfail': pyfail, 'verdict': verdict, 'scope': scope,
-                'n_exact': n_exact, 'n_ulp': n_ulp, 'l0': l0}
+                'n_exact': n_exact, 'n_ulp': n_ulp, 'l0': l0, 'skipped': sorted(skip)}
 
     # ---- implementation runner ------------------------------------------
     def rerun(self, inp):
@@ -738,7 +823,7 @@ class C12:
                     'pyfail': None, 'oracle': 'true', 'model': 'true', 'nontrivial': False,
                     'sig': 'bexc|%s|%r|%r' % (kind, inp['vals'], prog), 'tags': tags + [kind, 'build-raised']}
         try:
-            js = [self.judge(k, cells, obs, u, cnt, bool(inp.get('cross')) and i == len(readings) - 1)
+            js = [self.judge(k, cells, obs, u, cnt, inp.get('cross') if i == len(readings) - 1 else False)
                   for i, (k, cells, obs, u, cnt) in enumerate(readings)]
         except Unclassified:
             return None
@@ -748,6 +833,9 @@ class C12:
                     'tags': tags + [kind, 'harness-unjudged']}
         kf, cells, obs, u, cnt = readings[-1]
         last = js[-1]
+        # L1: the dumped buffer of every IntColumn reading holds whole numbers and the cells are read from it (RC12.v)
+        bufs = ['(%s, %s)' % (L.lst(['(qc %s %d)' % (L.z(q.numerator), q.denominator) for q in ob['_buf']]), cells_lit(cl))
+                for k, cl, ob, _u, _c in readings if k == 'KInt' and ob.get('_buf') is not None]
         pyfail = [p if i == len(js) - 1 else 'reading %d of %d (cells %r): %s' % (i + 1, len(js), readings[i][1][:12], p)
                   for i, j in enumerate(js) for p in j['pyfail']]
         verdict = []
@@ -767,6 +855,10 @@ class C12:
             tags.append('some-half-ulp')
         if len(readings) > 1:
             tags.append('readings%d' % len(readings))
+        if any(j['skipped'] for j in js):
+            tags.append('int-sum-leaves-int64')
+        if any(type(c) is int and abs(c) >= 2 ** 61 for c in cells):
+            tags.append('cell:near-int64-limit')
         for c in cells:
             if type(c) is bool:
                 tags.append('cell:bool')
@@ -778,7 +870,14 @@ class C12:
                 tags.append('cell:' + type(c).__name__)
         for op in prog:
             tags.append('op:' + op[0] + (':' + str(op[1]) if op[0] in ('set', 'map', 'map_', 'mapfree') else ''))
-        if any(op[0] in ('mapfree', 'farith', 'colslice', 'colrows', 'colsel') for op in prog):
+        for op in prog:
+            if op[0] == 'farith':
+                tags.append('free-arith:%s%s' % ('x' + op[1] + 'col' if op[2] == 'r' else 'col' + op[1] + 'x',
+                                                 ':float-x' if type(dec_x(op[3])) is float else
+                                                 ':seq-x' if type(dec_x(op[3])) is tuple else ''))
+            elif op[0] == 'fiop':
+                tags.append('free-iop:' + op[1] + '=')
+        if any(op[0] in ('mapfree', 'farith', 'fiop', 'colslice', 'colrows', 'colsel') for op in prog):
             tags.append('free-column')
         tags = sorted(set(tags), key=tags.index)
         return {
@@ -786,12 +885,14 @@ class C12:
             'observed': {'kind': kf, 'cells': [enc_cell(c) for c in cells],
                          'stats': {ATTR[s]: obs[s].hex() for s in STATS},
                          'unique': [enc_cell(c) for c in u], 'count': cnt, 'py_verdict': verdict,
+                         'unjudged': sorted(set(ATTR[s] for j in js for s in j['skipped'])),
                          'earlier_readings': [{'kind': k, 'cells': [enc_cell(c) for c in cl],
                                                'stats': {ATTR[s]: ob[s].hex() for s in STATS}}
                                               for k, cl, ob, _u, _c in readings[:-1]]},
             'pyfail': '; '.join(pyfail) if pyfail else None,
             'oracle': 'oracle_seq %s' % L.lst([j['oracle'] for j in js]),
-            'model': 'model_seq %s' % L.lst([j['model'] for j in js]),
+            'model': ('andb (model_seq %s) (int_buffers_ok %s)' % (L.lst([j['model'] for j in js]), L.lst(bufs))) if bufs
+            else 'model_seq %s' % L.lst([j['model'] for j in js]),
             'aux': 'in_scope_seq %s' % L.lst([j['oracle'] for j in js]),
             'nontrivial': len(last['l0']) >= 2 or n_junk > 0,
             'sig': '%s|%r|%r' % (kind, [[(type(c).__name__, c) for c in r[1]] for r in readings], prog),
@@ -869,7 +970,7 @@ class C12:
         if prog:
             inp['prog'] = prog
         if cross:
-            inp['cross'] = True
+            inp['cross'] = cross          # True: the other column types; 'all': and a fresh column of the same type
         if may_reject:
             inp['may_reject'] = True
         return self.rerun(inp)
@@ -877,6 +978,52 @@ class C12:
     # ---- programs -----------------------------------------------------------
     def value_for(self, rng, kind):
         return rng.choice([0, 1000, -3, rng.randint(-50, 50)] + ([] if kind == 'KInt' else [2.5, float('nan'), None, 'zz']))
+
+    XINT = {'-': [100, -3, 1, 7, 0], '+': [100, -3, 1, 7], '*': [2, -1, 3, 10],
+            '/': [7, 24, 29, 100, -13, 1, 1000003, 30], '//': [7, 24, 29, 100, -13, 1000003], '%': [7, 29, 100, -13, 1000003]}
+    XFLT = {'-': [0.5, 2.5, -1.5, 100.25], '+': [0.5, 2.5, -1.5], '*': [0.5, 2.5, -1.5],
+            '/': [7.5, 0.5, -2.25, 100.0, 1000000.5], '//': [7.5, 0.5, -2.25, 100.0], '%': [7.5, 0.5, -2.25, 100.0]}
+
+    def free_arith(self, rng, r, opn=None, side=None, xt=None):
+        """one operator applied to the column read at the moment, the result kept as a FREE column (never inserted):
+        col OP x, the REFLECTED x OP col (x an int, a float, or one number per row), for OP in + - * / // % **"""
+        col = r.rcol()
+        n = len(col)
+        nums = [q for q in (cell_q(plain(c)) for c in col) if q is not None]
+        if any(abs(q) >= 2 ** 40 for q in nums):
+            return ['colslice', 0, n]
+        opn = opn or rng.choice(['-', '/', '/', '//', '%', '**', '+', '*'])
+        side = side or rng.choice(['r', 'r', 'l'])
+        xt = xt or rng.choice(['int', 'float', 'int', 'float', 'seq'])
+        if opn == '**':
+            # x ** col: the cells are the exponents; col ** x: the cells are the bases
+            if side == 'r' and all(abs(q) <= 12 for q in nums):
+                x = rng.choice([2, 3, -2, 10]) if xt != 'float' else rng.choice([0.5, 2.5, 1.5, 4.0])
+            elif side == 'l' and all(abs(q) <= 1000 for q in nums):
+                x = rng.choice([2, 3, 0, 1]) if xt != 'float' else rng.choice([2.0, 0.5, 3.0])
+            else:
+                opn, x = '-', 100
+            return ['farith', opn, side, enc_x(x)]
+        if xt == 'seq' and n:
+            pool = self.XINT[opn] if rng.random() < 0.6 else self.XFLT[opn]
+            x = tuple(rng.choice(pool) for _ in range(n))
+            if side == 'l' and opn in ('/', '//', '%'):
+                x = tuple(v or 3 for v in x)
+        else:
+            x = rng.choice(self.XINT[opn] if xt != 'float' else self.XFLT[opn])
+            if side == 'l' and opn in ('/', '//', '%') and not x:
+                x = 3
+        return ['farith', opn, side, enc_x(x)]
+
+    def free_iop(self, rng, r):
+        """c = <column>; c OP= x  (no in-place methods exist: the name is re-bound to the operator's result)"""
+        col = r.rcol()
+        nums = [q for q in (cell_q(plain(c)) for c in col) if q is not None]
+        if any(abs(q) >= 2 ** 40 for q in nums):
+            return ['colslice', 0, len(col)]
+        opn = rng.choice(['+', '-', '*', '/', '/', '//', '%'])
+        x = rng.choice(self.XINT[opn] if rng.random() < 0.6 else self.XFLT[opn]) or 3
+        return ['fiop', opn, enc_x(x)]
 
     def pick(self, rng, r, family):
         """one admissible step for the current state of the runner r; family in derive | mutate | detach"""
@@ -899,6 +1046,8 @@ class C12:
                 return ['colrows', [rng.randrange(n) for _ in range(rng.randint(0, n))] if n else []]
             if o == 'colsel':
                 return ['colsel', rng.randint(0, max(n - 1, 0))]
+            if o == 'farith' and rng.random() < 0.4:
+                return self.free_arith(rng, r)
             if o == 'farith':
                 if kind == 'KInt' and not all(abs(int(x)) < 2 ** 40 for x in r.rcol()):
                     return ['colslice', 0, n]
@@ -1019,6 +1168,10 @@ class C12:
                         op = fam
                     elif fam.startswith('map:'):
                         op = ['map', fam[4:]]
+                    elif fam.startswith('farith'):       # 'farith' or 'farith:<op>:<side>:<operand class>'
+                        op = self.free_arith(rng, r, *fam.split(':')[1:])
+                    elif fam == 'fiop':
+                        op = self.free_iop(rng, r)
                     else:
                         op = self.pick(rng, r, fam)
                     r.apply(op)
@@ -1168,6 +1321,64 @@ class C12:
             prog = self.program(rng, kind, vals, shape)
             if prog is not None:
                 add(kind, vals, ['read-modify-read'], prog=prog)
+        # 8. DETACHED results of operators -- col OP x and the REFLECTED x OP col for + - * / // % **, x an int, a float or
+        #    one number per row -- of chained and of augmented (c OP= x) arithmetic, on every column type: the statistics
+        #    are read from the result object itself (before it is assigned anywhere) and must be those of the cells AS
+        #    READ from that object, and those of fresh columns of every type (also the same one) holding these cells;
+        #    then the result is written to / inserted into the table and read again
+        combos = [(o, sd, xt) for o in ('/', '-', '//', '%', '**', '+', '*') for sd in ('r', 'l') for xt in ('int', 'float', 'seq')]
+        combos += [(o, 'r', xt) for o in ('/', '-', '//', '%', '**') for xt in ('int', 'float')]     # the reflected ones twice
+        combos += [('/', 'r', xt) for xt in ('int', 'float', 'seq')]      # no column type overrides reflected true division
+        nfree = (3 * len(combos)) if quick else 30 * len(combos)
+        for i in range(nfree):
+            kind = KINDS[i % 3]
+            o, sd, xt = combos[(i // 3) % len(combos)]
+            vals = self.modest(rng, kind, 6)
+            if kind == 'KInt' or rng.random() < 0.5:           # divisors / moduli: mostly without zeros
+                vals = [v for v in vals if v != 0] or [2, 4, 3, -6, 12]
+            if o == '**':
+                vals = [rng.choice([0, 1, 2, 3, 5, -1, -2] + ([] if kind == 'KInt' else [0.5, 1.5])) if is_num(v) else v for v in vals]
+            fa = 'farith:%s:%s:%s' % (o, sd, xt)
+            shape = [[fa], [fa], [fa], [fa, 'farith'], [fa, 'fiop'], ['derive', fa], [fa, 'read', 'free'],
+                     [fa, 'read', ['insert']], [fa, 'fiop', 'read', ['insert'], 'read', 'mutate'],
+                     ['farith', fa]][rng.choice([0, 0, 0, 1, 2, 3, 4, 5, 5, 6, 7, 8, 9])]
+            prog = self.program(rng, kind, vals, shape)
+            if prog is not None:
+                add(kind, vals, ['detached-operator-result'], prog=prog, cross='all')
+        # 9. cells near the int64 / binary64-integer limits: each cell is an int64 value, but the total (or the sum of
+        #    squares, or a partial sum) is not an int64 / not an exact binary64 value: mean, median, std, min, max (and sum,
+        #    unless an IntColumn's exact total leaves int64 -- see INCLUDE_PENDING_FINDINGS) in all three column types
+        edges = [[2 ** 62] * 3, [2 ** 62, -2 ** 62, 2 ** 62, 5], [2 ** 53 + 1] * 4, [2 ** 62 + 2 ** 61, 2 ** 62, 1, 1],
+                 [-2 ** 62, -2 ** 62 + 2, -2 ** 62 + 4, 6], [2 ** 63 - 1] * 2, [2 ** 63 - 1, -2 ** 63], [-2 ** 63] * 2,
+                 [3037000500] * 3, [2 ** 32 + 1] * 5, [2 ** 31, 2 ** 31, -2 ** 31], [2 ** 53 + 1, 2 ** 53 + 1, -(2 ** 53 + 1)],
+                 [2 ** 53 + 1, 2 ** 53 - 1], [2 ** 62, 2 ** 62, -2 ** 62, -2 ** 62], [2 ** 62, 2 ** 62, -2 ** 62],
+                 [2 ** 61] * 4 + [1], [-2 ** 62] * 2 + [-1]]
+        for _ in range(24 if quick else 400):
+            n = rng.choice([2, 3, 3, 4, 5, 6])
+            ks = rng.choice([[62], [62, 61], [61, 60], [53], [53, 52], [31, 32], [62, 3], [63], [63, 62], [53, 62]])
+            vals = []
+            for _i in range(n):
+                k = rng.choice(ks)
+                v = (2 ** 63 - 1 - rng.choice([0, 0, 1, 5])) if k == 63 else 2 ** k + rng.choice([0, 0, 1, -1, 2, 3])
+                vals.append(v * rng.choice([1, 1, -1]) if k != 63 or rng.random() < 0.7 else -2 ** 63)
+            if rng.random() < 0.3:
+                vals[rng.randrange(n)] = vals[rng.randrange(n)]
+            if rng.random() < 0.3:
+                vals = [abs(v) for v in vals]
+            edges.append(vals)
+        for vals in edges:
+            for j, vs in enumerate(self.orders(rng, vals, 2)):
+                add('KInt', vs, ['int64-edge'], cross=j == 0)
+            add('KMixed', vals, ['int64-edge'])
+            add('KFloat', vals, ['int64-edge'])
+            if rng.random() < 0.35:
+                v2 = list(vals)
+                v2.insert(rng.randrange(len(v2) + 1), self.junk(rng, 'KMixed'))
+                add(rng.choice(['KMixed', 'KFloat']), v2, ['int64-edge'])
+            if rng.random() < 0.35:            # reached through a derivation / read again after a modification
+                prog = self.program(rng, 'KInt', vals, rng.choice([['derive'], ['read', 'mutate'], ['detach']]))
+                if prog is not None:
+                    add('KInt', vals, ['int64-edge'], prog=prog)
         # 4. outside the quantifier: infinities
         for _ in range(30 if quick else 300):
             base = self.numbers(rng, 6)
@@ -1204,7 +1415,7 @@ class C12:
         prog = inp.get('prog', [])
         base = {'kind': inp['kind'], 'tags': inp.get('tags', []), 'may_reject': True}
         if inp.get('cross'):
-            base['cross'] = True
+            base['cross'] = inp['cross']
         for i in range(len(prog)):                      # drop a step (a reading or a modification)
             yield dict(base, vals=vals, prog=prog[:i] + prog[i + 1:])
         for i, op in enumerate(prog):                   # simpler written values
